@@ -162,6 +162,15 @@ func (g *hGen) add(op string, o ...job.Obj) {
 	}
 }
 
+// insOp: an insert, or (one in three) the update of a caller that changes the object it inserted before in place
+// and hands the same pointer in again (for an object that is new to the engine the two are the same).
+func (g *hGen) insOp() string {
+	if g.r.chance(1, 3) {
+		return "insertInPlace"
+	}
+	return "insert"
+}
+
 func (g *hGen) mkNamespace(name string) *corev1.Namespace {
 	l := hLabels(g.r, nsKeys, nsVals)
 	l["kubernetes.io/metadata.name"] = name
@@ -510,7 +519,7 @@ func (g *hGen) mutate() {
 		ns, name := splitKey(k)
 		p := g.mkPod(ns, name)
 		g.pods[k] = p
-		g.add("insert", g.obj("Pod", p))
+		g.add(g.insOp(), g.obj("Pod", p))
 	case 1:
 		k := g.podName() // probably absent
 		if len(g.pods) > 0 && r.chance(3, 4) {
@@ -539,7 +548,7 @@ func (g *hGen) mutate() {
 	case 2:
 		n := g.ns()
 		g.nss[n] = true
-		g.add("insert", g.obj("Namespace", g.mkNamespace(n)))
+		g.add(g.insOp(), g.obj("Namespace", g.mkNamespace(n)))
 	case 3:
 		n := g.ns()
 		delete(g.nss, n)
